@@ -126,6 +126,7 @@ def explore(ctx, res, replay=None):
                 srcs.append((files, main, {'family': name, 'expect_ok': ok}))
     REFFUEL = 20000 if quick else 100000
     VMCAP = 12 * REFFUEL
+    MAXSTOPS = 600 if quick else 3000
     comp = compile_sources(ctx, [(f, m) for f, m, _ in srcs])
     ref_cases = [('r%d' % i, 'refrun %d %s' % (REFFUEL, vlib.files_fields(m, f))) for i, (f, m, _) in enumerate(srcs)]
     refs = ctx.run_model(ref_cases)
@@ -133,7 +134,7 @@ def explore(ctx, res, replay=None):
     chk_cases = []
     for i, c in enumerate(comp):
         if c['ok'] and c['prog']:
-            vm_cases.append(('t%d' % i, 'vm %s 1 T %d %d' % (c['prog'], VMCAP, 600 if quick else 3000)))
+            vm_cases.append(('t%d' % i, 'vm %s 1 T %d %d' % (c['prog'], VMCAP, MAXSTOPS)))
             vm_cases.append(('x%d' % i, 'vm %s 1 XS %d' % (c['prog'], VMCAP)))
             chk_cases.append(('k%d' % i, 'checkprog ' + c['prog']))
     vout = ctx.run_impl(vm_cases, timeout_case=60)
@@ -180,6 +181,11 @@ def explore(ctx, res, replay=None):
             ndefs = len(re.findall(r'(?i)\bprog(?:ram)?\b', ' '.join(files.values())))
             if t['maxdepth'] > ndefs + 1:
                 res.violations.append(dict(case, what='depth', detail='activation stack reached %d with %d definitions' % (t['maxdepth'], ndefs)))
+        if ref['kind'] not in ('STOP', 'DONE', 'REFFUEL'):
+            # the extracted reference interpreter gave no verdict (its own time cap): nothing is decided for this source
+            res.count('reference_no_verdict_' + ref['kind'][:12])
+            res.skipped += 1
+            continue
         if ref['kind'] == 'REFFUEL':
             res.count('reference_out_of_budget')
             # C01 budget clause: the VM must not have finished within the proportional budget (steps <= instructions)
@@ -199,11 +205,23 @@ def explore(ctx, res, replay=None):
         if meta.get('call'):
             res.count('with_calls')
         # final values (C01)
-        if not t['ended']:
+        truncated = (not t['ended']) and t['stops'] >= MAXSTOPS     # the stepping run was cut at MAXSTOPS stops, not at the end
+        if truncated:
+            # whether the machine halts, and with what values, is then read from the uninterrupted run under the same cap
+            res.count('stepping_run_truncated')
+            xm = re.search(r' r=1 (.*)$', xs)
+            xst = dict(kv.split('=', 1) for kv in (xm.group(1).split() if xm else []) if '=' in kv)
+            if 'FUEL' in xs or not xm:
+                res.violations.append(dict(case, what='halt', detail='reference finished after %d steps but the VM did not halt within %d instructions' % (ref['steps'], VMCAP)))
+                continue
+            final_views = parse_views(xst.get('views', ''))
+        elif not t['ended']:
             res.violations.append(dict(case, what='halt', detail='reference finished after %d steps but the VM did not halt within %d instructions' % (ref['steps'], VMCAP)))
             continue
-        if pid in ('C01', 'C16') and t['views'] != ref['views']:
-            res.violations.append(dict(case, what='values', detail='final values: VM %s / reference %s' % (t['views'], ref['views'])))
+        else:
+            final_views = t['views']
+        if pid in ('C01', 'C16') and final_views != ref['views']:
+            res.violations.append(dict(case, what='values', detail='final values: VM %s / reference %s' % (final_views, ref['views'])))
         if pid == 'C01':
             mm = re.search(r'n=(\d+) ', xs)
             if mm and int(mm.group(1)) < ref['steps'] - len(ref['trace']):
@@ -211,6 +229,8 @@ def explore(ctx, res, replay=None):
         if pid == 'C07':
             a = [(l, v) for l, v in t['trace']]
             b = [(('%s:%d' % (l.split(':')[0], int(l.split(':')[1]))), v) for l, v in ref['trace']]
+            if truncated:
+                b = b[:len(a)]
             if [x[0] for x in a] != [x[0] for x in b]:
                 k0 = next((j for j in range(min(len(a), len(b))) if a[j][0] != b[j][0]), min(len(a), len(b)))
                 res.violations.append(dict(case, what='stops', detail='stop %d: VM at %s, source semantics at %s (of %d / %d stops)' % (
